@@ -386,6 +386,10 @@ class CallListerVisitor(ast.NodeVisitor):
             # self.helper = ...: what the attribute holds while the
             # signature is being retrieved is not what will be called
             self.stored_attrs.add(self.attribute_path(node))
+        else:
+            # update = kwargs.update: whoever holds a bound method of the
+            # mapping can alter it
+            self.generic_visit(node)
 
     @staticmethod
     def attribute_path(node):
